@@ -188,12 +188,20 @@ pub fn observe<D: ReadDoc>(doc: &D, candidates: &[(ObjId, ObjType)], heads: Opti
                 Some(h) => doc.length_at(id, h),
             };
             let mut regs = vec![];
+            let mut prev_ids: Option<Vec<ObjId>> = None;
             for i in 0..len {
                 let vals = match heads {
                     None => doc.get_all(id, i),
                     Some(h) => doc.get_all_at(id, i, h),
                 }
                 .map_err(|e| format!("get_all({:?},{}) failed: {}", id, i, e))?;
+                // a text element wider than one unit (a multi-character string put into one element) answers
+                // at each of its unit indexes: list the element once (two elements never share op ids)
+                let ids: Vec<ObjId> = vals.iter().map(|(_, x)| x.clone()).collect();
+                if ty == ObjType::Text && !ids.is_empty() && prev_ids.as_ref() == Some(&ids) {
+                    continue;
+                }
+                prev_ids = Some(ids);
                 if vals.len() > 1 {
                     st.conflicts += 1;
                 }
